@@ -120,7 +120,8 @@ def run(ctx):
 
     # ------------------------------------------------------------------- R3
     ctx.rule("C14.R3", "a descriptor that is not a link (EINVAL) or whose target is "
-             "too long (ENAMETOOLONG) is skipped; other errors propagate", floor=2)
+             "too long (ENAMETOOLONG) is skipped; other errors propagate; every access to "
+             "a per-descriptor entry tolerates ENOENT/ESRCH locally", floor=5)
     rl = [c for c in calls_in(of.node) if dotted(c.func) == "readlink"]
     ctx.require(rl, "open_files: readlink call vanished")
     hs = [h for t in enclosing_trys(of.node, rl[0]) for h in t.handlers]
@@ -133,6 +134,9 @@ def run(ctx):
                    for code in ("EINVAL", "ENAMETOOLONG", "EACCES", "EIO", "EMFILE", "ELOOP")}
         okh = outcome == {"EINVAL": "skip", "ENAMETOOLONG": "skip", "EACCES": "raise",
                           "EIO": "raise", "EMFILE": "raise", "ELOOP": "raise"}
+    # a descriptor closing at ANY step of its inspection is tolerated locally
+    from .c03 import _r8 as _subobject_rule
+    _subobject_rule(ctx, repo, A, pm, rule="C14.R3", only={"Process.open_files"}, floor=3)
     if okh:
         ctx.ok("C14.R3", "errno-policy", sample="EINVAL / ENAMETOOLONG -> skip; else re-raise")
         ctx.ok("C14.R3", "handler-order", nontrivial=False)
